@@ -99,9 +99,12 @@ var vSqlNear = [...]string{
 	"?'~{or}~?'", "#'~{and}~'#", "?\"~{or}~\"?", "#'~{xor}~#", "#~{or}~#", "?~{and}~#<#", "#'~{and}~#<#", "'~{or}~'", "\"~{and}~\"", "#'~{or}~#~--^?#",
 	"#'\"~{and}~#", "?'?\"~{or}~#=#~--", "?'?\"~{union}~{select}~#,#~--", "\"?'~{or}~#=#", "'~&&~?", "?'~{and}~-?", "?\"~{or}~~?", "'~{or}~?",
 	"?~?~--^sp_password", "?~?~?~--sp_password", "#~?~/*sp_password*/", "?'~?~--^sp_password", "?~--^{sp_password}", "#~?~#~?~#~--^sp_password",
+	"?--#/*", "@--?/*=", "?--?/*#'--'", "e'~{or}~#=#~--", "n'?\"~{union}~{select}~#~--", "#'~{union}~#\"", "#'--#~{union}~\"",
+	"?)-({in}~{union}~{select}~#", "#),(\\*#", "#),(\\*#~{union}~{select}~#", "'+'?'+'", "'||'?'||'", "'?'~'?", "q'!?!'~'?\\'",
+	"#~;~#~;~#~;~#~;~#~;~#'~{or}~#=#~--", "{user}.?~{and}~#", "'?'~{and}~{user}.?", "#~{union}", "@?~~{union}~",
 }
 
-const vNumSqlNear = 46
+const vNumSqlNear = 65
 
 func HSqlNearRel(i int, sep int) {
 	s := vExpand(vSqlNear[i], sep)
